@@ -583,8 +583,15 @@ def _check_link_inds(ctx, r):
                           f"when {label} holder(s) remain the code performs {sorted(eff)}{' and deletes the entry' if dele else ''}; expected {text}",
                           where=f"{f.module.relpath}:{f.lineno}", operand=label))
     # discard of the tid from the entry precedes the count
-    srcu = src_of(f.node)
-    if "tids.discard(tid)" in srcu or f"self.ind_map[{var}].discard(tid)" in srcu:
+    # structural: a `.discard(<tid parameter>)` on the ind_map entry (directly, or through a local bound to it)
+    tidp = [p_ for p_ in f.posparams if p_ != "self"][-1] if len(f.posparams) > 1 else "tid"
+    entry_locals = {a.targets[0].id for a in ast.walk(f.node) if isinstance(a, ast.Assign) and len(a.targets) == 1 and isinstance(a.targets[0], ast.Name)
+                    and any(isinstance(y, ast.Attribute) and y.attr == "ind_map" for y in ast.walk(a.value))}
+    discards = [c for c in ast.walk(f.node) if isinstance(c, ast.Call) and isinstance(c.func, ast.Attribute) and c.func.attr == "discard"
+                and c.args and isinstance(c.args[0], ast.Name) and c.args[0].id == tidp
+                and ((isinstance(c.func.value, ast.Name) and c.func.value.id in entry_locals)
+                     or any(isinstance(y, ast.Attribute) and y.attr == "ind_map" for y in ast.walk(c.func.value)))]
+    if discards:
         r.ok("TensorNetwork._unlink_inds[entry]")
     else:
         r.bad(Finding("pairing", "TensorNetwork._unlink_inds", "tid is not discarded from the ind_map entry",
@@ -748,7 +755,8 @@ def rule_copy_complete(ctx):
                           where=f"{f.module.relpath}:{f.lineno}", operand=attr + "-entries"))
     # add_owner in the copy loop
     srcb = "\n".join(src_of(s) for s in copy_branch.body)
-    if ".add_owner(self, tid)" in srcb:
+    if any(isinstance(c, ast.Call) and isinstance(c.func, ast.Attribute) and c.func.attr == "add_owner" and len(c.args) == 2
+           and isinstance(c.args[0], ast.Name) and c.args[0].id == "self" for st_ in copy_branch.body for c in ast.walk(st_)):
         r.ok("TensorNetwork.__init__[add_owner]")
     else:
         r.bad(Finding("copy-complete", "TensorNetwork.__init__", "copied tensors do not register the new network as owner",
